@@ -2,6 +2,7 @@ package props
 
 import (
 	"go/ast"
+	"go/token"
 	"sort"
 	"strings"
 
@@ -360,7 +361,7 @@ func c10Wiring(c *Ctx) {
 			extra := 0
 			for _, p := range g.Find(cb) {
 				for _, gd := range g.Guards(p) {
-					if !strings.Contains(core.ExprStr(gd.Cond), "CompareAndDelete(") && core.ExprStr(gd.Cond) != "cache == nil" {
+					if !strings.Contains(core.ExprStr(gd.Cond), "CompareAndDelete(") && !isNilCmpOf(gd.Cond, "cache") {
 						extra++
 					}
 				}
@@ -373,4 +374,15 @@ func c10Wiring(c *Ctx) {
 		full := core.FullStr(f.Body)
 		c.R.Checkf(rule, "delete-callback-uses-owner-key", c.pos(f.Pos()), strings.Contains(full, "rt.cacheDeleteCallback(cacheKey, ensureDNSCacheRouteOwnerKey(cacheKey, cache))"), "the delete callback is given the entry tagged with its own cache key as owner")
 	}
+}
+
+
+// isNilCmpOf reports whether e compares the named expression with nil (== or !=, either side).
+func isNilCmpOf(e ast.Expr, name string) bool {
+	be, ok := ast.Unparen(e).(*ast.BinaryExpr)
+	if !ok || (be.Op != token.EQL && be.Op != token.NEQ) {
+		return false
+	}
+	x, y := core.ExprStr(be.X), core.ExprStr(be.Y)
+	return (x == name && y == "nil") || (y == name && x == "nil")
 }
